@@ -106,6 +106,13 @@ def templates():
         'executions:create',
         body=lambda fx, p: {'workflow_id': fx['workflow']['id'] if p
                             else NOPE, 'input': '{}'})
+    # the same request carrying the id of an execution (idempotent replay of
+    # a start request: answered with the existing execution)
+    add('executions:create-with-id', 'POST', lambda fx, p: '/v2/executions',
+        'executions:create', res='executions',
+        body=lambda fx, p: {'id': ei(fx, p),
+                            'workflow_id': fx['workflow']['id'],
+                            'input': '{}'})
     add('executions:update', 'PUT',
         lambda fx, p: '/v2/executions/' + ei(fx, p), 'executions:update',
         body=lambda fx, p: {'state': 'PAUSED'})
